@@ -677,6 +677,21 @@ func init() {
 		x.thMelt("A", 0, []int{0})
 		x.thMelt("B", 1, []int{0})
 	}, oracle: oracleC01([]int{0})})
+	addScn(&schedScn{name: "S3c-melt-melt-check", prop: "C01", setup: func(x *schedX) {
+		// two melts of one proof on two quotes, the first one's payment stays in flight, plus a state check resolving it
+		must(x.w, "fund|8,8", "meltq|4", "meltq|4")
+		x.w.LN.PayScript[x.w.Melts[0].Hash] = []lnmodel.Answer{lnmodel.Pending}
+		x.thMelt("A", 0, []int{0})
+		x.thMelt("B", 1, []int{0})
+		x.thCheck("C", []int{0}, 2)
+	}, oracle: oracleC01([]int{0})})
+	addScn(&schedScn{name: "S1c-swap-swap-check-check", prop: "C01", setup: func(x *schedX) {
+		must(x.w, "fund|8,8")
+		x.thSwap("A", []int{0}, "")
+		x.thSwap("B", []int{0, 1}, "")
+		x.thCheck("C", []int{0, 1}, 2)
+		x.thSwap("D", []int{1}, "")
+	}, oracle: oracleC01([]int{0, 1})})
 	addScn(&schedScn{name: "S4-swap-melt-check", prop: "C01", setup: func(x *schedX) {
 		must(x.w, "fund|8,8", "meltq|4")
 		x.thSwap("A", []int{0}, "")
